@@ -1,6 +1,7 @@
 // pieces of the table engine reused by other engines
 #pragma once
 #include "common.h"
+#include "../sim/seams.h"
 extern "C" {
 #include <mtbl.h>
 }
@@ -9,6 +10,14 @@ extern "C" {
 // rint, pool + sched, prefix, wfrag, initfd); fills `model` with the accepted entries.
 bool tablelib_write(const Plan &p, RunResult &res, const std::string &path, TableModel &model,
 		    const std::vector<Op> &adds, bool check_gate, Bytes *prefix_out);
+
+void gen_writer_cfg(Plan &p, Rng &r, bool allow_pool, bool allow_wfrag, bool allow_prefix);
+size_t draw_n(Rng &r);
+void gen_sorted_adds(Plan &p, Rng &r, size_t n, int big_pm);
+
+// cfg wfrag=list takes the write faults from here; stats of the last armed write land in g_tablelib_wstats
+extern std::vector<sim_wfault> g_tablelib_wlist;
+extern sim_wstats g_tablelib_wstats;
 
 // Stateful multi-iterator client over any mtbl_source, checked against an ordered-map model.
 // ops: open S kind K0 K1 | next S n | seek S K | close S | q kind K0 K1
